@@ -868,3 +868,6 @@ pub fn vx_duration_zero() -> (r: Duration) ensures dur_nanos(r) == 0 { Duration:
 pub assume_specification[ usize::next_power_of_two ](x: usize) -> (r: usize) ensures r >= x;
 pub assume_specification<T, E>[ core::result::Result::<T, E>::unwrap_or ](s: core::result::Result<T, E>, d: T) -> (r: T)
     ensures r == (match s { Ok(v) => v, Err(_) => d });
+/// a scratch World for effectful calls that appear inside a function whose contract declares it effect-free (rule R7-scratch)
+#[verifier::external_body]
+pub fn vx_scratch_world() -> World { unimplemented!() }
